@@ -753,14 +753,6 @@ Section Qty.
 End Qty.
 
 (* ---------------------------------------------------------------- kinds of printed values *)
-Definition numk (k : tkind) : bool :=
-  match k with
-  | KInt | KZeroInt | KDot | KSlash | KWs | KLineComment | KBlockComment => true
-  | _ => false
-  end.
-
-Definition numk_p (t : ptok) : bool := numk (fst t).
-
 Lemma blank_numk p : forallb blank_ok p = true -> forallb numk_p p = true.
 Proof.
   apply forallb_impl. intros x H. apply blank_ok_p in H. unfold blank_p in H.
@@ -857,6 +849,151 @@ Proof.
   unfold notk. destruct (tk_eqb (fst x) k0) eqn:E; [|reflexivity]. apply internal_tkind_dec_bl in E. rewrite E in H. congruence.
 Qed.
 
+
+(* ---------------------------------------------------------------- a foreign token: not a number *)
+Definition nonnum_t (t : tok) : bool := negb (numk (kind t)).
+
+Lemma nonnum_facts k : numk k = false ->
+  tk_eqb k KInt = false /\ tk_eqb k KDot = false /\ tk_eqb k KSlash = false /\ is_int_or_zero k = false /\
+  is_ws_comment k = false.
+Proof. destruct k; cbn; intro H; try discriminate; repeat split; reflexivity. Qed.
+
+Lemma drop_keeps_in x ts : In x ts -> blank_t x = false -> In x (drop_ws_comment ts).
+Proof.
+  intros Hin Hx. induction ts as [|t r IH]; [contradiction|]. cbn [drop_ws_comment].
+  destruct (not_ws_comment t) eqn:E; [exact Hin|]. destruct Hin as [<-|Hin]; [|exact (IH Hin)].
+  unfold not_ws_comment in E. unfold blank_t in Hx. rewrite Hx in E. discriminate.
+Qed.
+
+Lemma trim_keeps_in x ts : In x ts -> blank_t x = false -> In x (trim_tokens ts).
+Proof.
+  intros Hin Hx. unfold trim_tokens. apply in_rev. rewrite rev_involutive.
+  apply drop_keeps_in; [|exact Hx]. apply -> in_rev. apply drop_keeps_in; assumption.
+Qed.
+
+Definition simple_part (tr : list tok) : option num :=
+  match tr with
+  | [a] => if tk_eqb (kind a) KInt then Some (NReg (dec_q (tstr a) [])) else None
+  | [a; b] =>
+      if tk_eqb (kind a) KDot && is_int_or_zero (kind b)
+      then Some (NReg (dec_q [] (tstr b))) else None
+  | [a; b; c] =>
+      if tk_eqb (kind a) KInt && tk_eqb (kind b) KDot && is_int_or_zero (kind c)
+      then Some (NReg (dec_q (tstr a) (tstr c))) else None
+  | _ => None
+  end.
+
+Lemma nv_shape ts :
+  numeric_value ts =
+  match trim_tokens ts with
+  | [] => None
+  | tr => match simple_part tr with
+          | Some n => Some (inr n)
+          | None => frac_part (filter not_ws_comment tr)
+          end
+  end.
+Proof. unfold numeric_value. destruct (trim_tokens ts); reflexivity. Qed.
+
+Ltac kill_nonnum x :=
+  let H := fresh in
+  match goal with Hx : numk (kind x) = false |- _ =>
+    destruct (nonnum_facts _ Hx) as (H & ?H & ?H & ?H & ?H) end;
+  repeat match goal with Hf : _ (kind x) _ = false |- _ => rewrite Hf | Hf : is_int_or_zero (kind x) = false |- _ => rewrite Hf end;
+  rewrite ?andb_false_r; cbn [andb]; try reflexivity;
+  repeat match goal with |- context [tk_eqb ?a ?b] => destruct (tk_eqb a b); cbn [andb]; try reflexivity end.
+
+Lemma simple_part_nonnum x l : In x l -> numk (kind x) = false -> simple_part l = None.
+Proof.
+  intros Hin Hx. destruct l as [|a [|b [|c [|d m]]]]; cbn [simple_part]; try reflexivity; cbn [In] in Hin.
+  - destruct Hin as [<-|[]]. kill_nonnum a.
+  - destruct Hin as [<-|[<-|[]]]; [kill_nonnum a | kill_nonnum b].
+  - destruct Hin as [<-|[<-|[<-|[]]]]; [kill_nonnum a | kill_nonnum b | kill_nonnum c].
+Qed.
+
+Lemma frac_part_nonnum x l : In x l -> numk (kind x) = false -> frac_part l = None.
+Proof.
+  intros Hin Hx. destruct l as [|a [|b [|c [|d [|e m]]]]]; cbn [frac_part]; try reflexivity; cbn [In] in Hin.
+  - destruct Hin as [<-|[<-|[<-|[]]]]; [kill_nonnum a | kill_nonnum b | kill_nonnum c].
+  - destruct Hin as [<-|[<-|[<-|[<-|[]]]]]; [kill_nonnum a | kill_nonnum b | kill_nonnum c | kill_nonnum d].
+Qed.
+
+Lemma numeric_nonnum ts : existsb nonnum_t ts = true -> numeric_value ts = None.
+Proof.
+  intro H. apply existsb_exists in H as (x & Hin & Hx). unfold nonnum_t in Hx.
+  assert (Hk : numk (kind x) = false) by (destruct (numk (kind x)); [discriminate|reflexivity]).
+  assert (Hb : blank_t x = false) by (unfold blank_t; apply (nonnum_facts _ Hk)).
+  pose proof (trim_keeps_in x ts Hin Hb) as Htr. rewrite nv_shape.
+  destruct (trim_tokens ts) as [|t0 tr] eqn:E; [reflexivity|]. cbv zeta.
+  rewrite (simple_part_nonnum x (t0 :: tr) Htr Hk).
+  apply (frac_part_nonnum x); [|exact Hk]. apply filter_In. split; [exact Htr|].
+  unfold not_ws_comment. unfold blank_t in Hb. rewrite Hb. reflexivity.
+Qed.
+
+(* the first token that is not part of a number is not `-`: no range start *)
+Fixpoint first_nonnum_t (ts : list tok) : option tkind :=
+  match ts with
+  | [] => None
+  | t :: r => if numk (kind t) then first_nonnum_t r else Some (kind t)
+  end.
+
+Lemma first_nonnum_position ts k :
+  first_nonnum_t ts = Some k -> k <> KMinus ->
+  match position (fun k => tk_eqb k KMinus) ts with
+  | None => True
+  | Some mid => existsb nonnum_t (firstn mid ts) = true
+  end.
+Proof.
+  intros H Hk. induction ts as [|t r IH]; [discriminate|]. cbn [first_nonnum_t position] in *.
+  destruct (numk (kind t)) eqn:En.
+  - assert (tk_eqb (kind t) KMinus = false) by (destruct (kind t); try discriminate; reflexivity).
+    rewrite H0. specialize (IH H). destruct (position _ r); cbn [option_map]; [|exact I].
+    cbn [firstn existsb]. rewrite IH. apply orb_true_r.
+  - inversion H; subst k. assert (tk_eqb (kind t) KMinus = false).
+    { destruct (tk_eqb (kind t) KMinus) eqn:E; [|reflexivity]. apply internal_tkind_dec_bl in E. contradiction. }
+    rewrite H0. destruct (position _ r); cbn [option_map]; [|exact I].
+    cbn [firstn existsb]. unfold nonnum_t at 1. rewrite En. reflexivity.
+Qed.
+
+Lemma first_nonnum_place p : forall off, first_nonnum_t (place off p) = first_nonnum p.
+Proof. induction p as [|t p IH]; intro off; cbn [place first_nonnum_t first_nonnum kind]; [reflexivity|]. rewrite IH. reflexivity. Qed.
+
+Lemma first_nonnum_app a b : forallb numk_p a = true -> first_nonnum (a ++ b) = first_nonnum b.
+Proof.
+  induction a as [|t a IH]; cbn [forallb app first_nonnum]; [reflexivity|]. intro H.
+  apply andb_true_iff in H as [H1 H2]. unfold numk_p in H1. rewrite H1. exact (IH H2).
+Qed.
+
+Lemma first_nonnum_app_some a b k : first_nonnum a = Some k -> first_nonnum (a ++ b) = Some k.
+Proof.
+  induction a as [|t a IH]; cbn [app first_nonnum]; [discriminate|]. destruct (numk (fst t)); [exact IH|auto].
+Qed.
+
+Lemma first_nonnum_exists p k : first_nonnum p = Some k -> existsb (fun t => negb (numk (fst t))) p = true.
+Proof.
+  induction p as [|t p IH]; cbn [first_nonnum existsb]; [discriminate|]. destruct (numk (fst t)); cbn [negb orb]; auto.
+Qed.
+
+Section TextValue.
+  Variable cfg : pcfg.
+
+  Lemma range_or_numeric_text ts k :
+    first_nonnum_t ts = Some k -> (has cfg X_RANGE_VALUES = false \/ k <> KMinus) ->
+    range_or_numeric cfg ts = None.
+  Proof.
+    intros Hf Hk.
+    assert (Hn : numeric_value ts = None).
+    { apply numeric_nonnum. clear Hk. induction ts as [|t r IH]; [discriminate|]. cbn [first_nonnum_t existsb] in *.
+      unfold nonnum_t at 1. destruct (numk (kind t)); cbn [negb orb]; auto. }
+    unfold range_or_numeric. rewrite Hn.
+    assert (Hr : range_value cfg ts = None); [|rewrite Hr; reflexivity].
+    destruct Hk as [Hoff | Hk]; [apply range_off; exact Hoff|].
+    unfold range_value. destruct (negb (has cfg X_RANGE_VALUES)); [reflexivity|].
+    pose proof (first_nonnum_position ts k Hf Hk) as Hp.
+    destruct (position (fun k0 => tk_eqb k0 KMinus) ts) as [mid|]; [|reflexivity].
+    rewrite (numeric_nonnum _ Hp). reflexivity.
+  Qed.
+End TextValue.
+
 Section Final.
   Variable cfg : pcfg.
   Hypothesis Hstrict : p_strict_escape cfg = false.
@@ -872,16 +1009,16 @@ Section Final.
     - unfold text_trimmed, text_outer_trimmed, clean. rewrite Ht. reflexivity.
   Qed.
 
-  Definition value_wf (v : vspec) (tp : qtape) : bool :=
+  Definition value_wf (pct : bool) (v : vspec) (tp : qtape) : bool :=
     match v with
     | QNum n => num_wf n (q_ta tp)
     | QRange a b => has cfg X_RANGE_VALUES && num_wf a (q_ta tp) && num_wf b (q_tb tp) &&
                     forallb blank_ok (q_bd tp) && forallb blank_ok (q_ad tp)
-    | QText toks => words_ok toks
+    | QText toks => text_ok cfg pct toks
     end.
 
-  Lemma value_reads_print pre v tp T o :
-    forallb blank_ok pre = true -> forallb blank_ok T = true -> value_wf v tp = true ->
+  Lemma value_reads_print pct pre v tp T o :
+    forallb blank_ok pre = true -> forallb blank_ok T = true -> value_wf pct v tp = true ->
     value_reads cfg (place o (pre ++ print_value v tp ++ T)) (denote_value v).
   Proof.
     intros Hpre HT W. destruct v as [n | a b | toks]; cbn [value_wf print_value denote_value] in *.
@@ -907,24 +1044,23 @@ Section Final.
         apply numk_not; [reflexivity|].
         rewrite !forallb_app, (blank_numk _ Hpre), (blank_numk _ Hbd), (print_num_numk _ _ Wa). reflexivity.
       + reflexivity.
-    - right. unfold words_ok in W.
-      apply andb_true_iff in W as [W Wnb]. apply andb_true_iff in W as [W Wword].
-      apply andb_true_iff in W as [W Wminus]. apply andb_true_iff in W as [Wsh Wpct].
-      destruct toks as [|w r]; [discriminate|]. apply internal_tkind_dec_bl in Wword.
-      assert (Hnm : position (fun k => tk_eqb k KMinus) (place o (pre ++ (w :: r) ++ T)) = None).
-      { apply place_position_none. rewrite !forallb_app.
-        rewrite (blank_not KMinus pre eq_refl Hpre), (blank_not KMinus T eq_refl HT).
-        rewrite (kind_in_forallb KMinus (w :: r)); [reflexivity|].
-        destruct (kind_in KMinus (w :: r)); [discriminate|reflexivity]. }
+    - right. unfold text_ok in W.
+      apply andb_true_iff in W as [W _]. apply andb_true_iff in W as [W Wfirst].
+      apply andb_true_iff in W as [W _]. apply andb_true_iff in W as [W Wnbl].
+      apply andb_true_iff in W as [W Wnb]. apply andb_true_iff in W as [Wsh Wpct].
+      destruct (first_nonnum toks) as [k|] eqn:Ef; [|discriminate].
+      assert (toks <> []) by (destruct toks; [discriminate|discriminate]).
       split.
-      + unfold range_or_numeric. rewrite (range_untriggered cfg _ Hnm).
-        rewrite place_app. cbn [app place].
-        rewrite numeric_word_first; [reflexivity | apply place_blank; exact Hpre | exact Wword].
-      + rewrite place_start by (destruct pre; discriminate).
-        destruct (text_reads (pre ++ (w :: r) ++ T) o) as (t & E & Hem & Htr).
+      + apply (range_or_numeric_text cfg _ k).
+        * rewrite first_nonnum_place, (first_nonnum_app pre) by (apply blank_numk; exact Hpre).
+          apply first_nonnum_app_some. exact Ef.
+        * destruct (has cfg X_RANGE_VALUES); [right|left; reflexivity]. cbn [negb orb] in Wfirst.
+          intros ->. discriminate.
+      + rewrite place_start by (destruct pre; [destruct toks; [contradiction|discriminate]|discriminate]).
+        destruct (text_reads (pre ++ toks ++ T) o) as (t & E & Hem & Htr).
         { rewrite !forallb_app, (blank_ok_shape _ Hpre), (blank_ok_shape _ HT), Wsh. reflexivity. }
         exists t. split; [exact E|]. rewrite !toks_text_app in Hem, Htr. split.
-        * rewrite Hem, !str_blank_app. destruct (str_blank (toks_text (w :: r))); [discriminate|].
+        * rewrite Hem, !str_blank_app. destruct (str_blank (toks_text toks)); [discriminate|].
           rewrite andb_false_r. reflexivity.
         * rewrite Htr. unfold clean. rewrite trim_pad; [reflexivity | apply blank_toks_text; exact Hpre | apply blank_toks_text; exact HT].
   Qed.
@@ -1043,31 +1179,208 @@ Section Adv2.
   Qed.
 End Adv2.
 
-(* ---------------------------------------------------------------- the quantity round trip *)
-Definition lock_p (q : qspec) : list ptok := if qs_lock q then [eq_p] else [].
-Definition vv_p (q : qspec) (tp : qtape) : list ptok :=
-  (if qs_lock q then q_after_lock tp else []) ++ print_value (qs_val q) tp ++ q_trail tp.
-Definition unit_p (q : qspec) (tp : qtape) : list ptok :=
-  match qs_unit q with Some u => pct_p :: q_after_pct tp ++ u ++ q_end tp | None => [] end.
 
-Lemma print_qty_split q tp : print_qty q tp = q_lead tp ++ lock_p q ++ vv_p q tp ++ unit_p q tp.
+(* ---------------------------------------------------------------- numbers and ranges between
+   arbitrary blank tokens *)
+Lemma numeric_print_tok n tp A B o :
+  num_wf n tp = true -> forallb blank_t A = true -> forallb blank_t B = true ->
+  numeric_value (A ++ place o (print_num n tp) ++ B) = Some (inr (denote_num n)).
 Proof.
-  unfold print_qty, lock_p, vv_p, unit_p. destruct (qs_lock q); cbn [app]; rewrite <- ?app_assoc; reflexivity.
+  intros W Pa Pb. unfold num_wf in W.
+  apply andb_true_iff in W as [W Wn]. apply andb_true_iff in W as [W Was]. apply andb_true_iff in W as [Wg Wbs].
+  destruct n as [ds | ip fp | x y | w x y]; cbn [print_num denote_num].
+  - cbn [place fst snd]. erewrite numeric_int; [reflexivity| | |]; auto.
+  - destruct ip as [|i ip]; cbn [place fst snd].
+    + erewrite numeric_dec2; [reflexivity| | | |]; auto. apply digits_kind_ioz.
+    + erewrite numeric_dec3; [reflexivity| | | | |]; auto. apply digits_kind_ioz.
+  - apply andb_true_iff in Wn as [Wn Wz]. apply andb_true_iff in Wn as [Wx Wy].
+    cbn [place fst snd]. rewrite place_app. cbn [place fst snd]. rewrite place_app. cbn [place fst snd].
+    erewrite numeric_frac; [reflexivity| | | | | | | | | |]; auto using place_blank.
+    cbn [tstr]. destruct (digits_val y =? 0); [discriminate|reflexivity].
+  - apply andb_true_iff in Wn as [Wn Wz]. apply andb_true_iff in Wn as [Wn Wy]. apply andb_true_iff in Wn as [Ww Wx].
+    cbn [place fst snd]. rewrite place_app. cbn [place fst snd]. rewrite place_app. cbn [place fst snd].
+    rewrite place_app. cbn [place fst snd].
+    erewrite numeric_mixed; [reflexivity| | | | | | | | | | | | |]; auto using place_blank.
+    cbn [tstr]. destruct (digits_val y =? 0); [discriminate|reflexivity].
 Qed.
 
-Lemma print_value_head cfg v tp :
-  value_wf cfg v tp = true -> exists t r, print_value v tp = t :: r /\ blank_p t = false /\ fst t <> KEq.
+Lemma blank_t_notk k0 A : is_ws_comment k0 = false -> forallb blank_t A = true ->
+  forallb (fun t => negb (tk_eqb (kind t) k0)) A = true.
+Proof.
+  intro Hk. apply forallb_impl. intros x H. unfold blank_t in H.
+  destruct (tk_eqb (kind x) k0) eqn:E; [|reflexivity]. apply internal_tkind_dec_bl in E. rewrite E in H. congruence.
+Qed.
+
+Lemma place_notk k0 p o : forallb (notk k0) p = true -> forallb (fun t => negb (tk_eqb (kind t) k0)) (place o p) = true.
+Proof. intro H. rewrite (place_forallb (fun k => negb (tk_eqb k k0))). exact H. Qed.
+
+Section NumTok.
+  Variable cfg : pcfg.
+
+  Definition numval_wf (v : vspec) (tp : qtape) : bool :=
+    match v with
+    | QNum n => num_wf n (q_ta tp)
+    | QRange a b => has cfg X_RANGE_VALUES && num_wf a (q_ta tp) && num_wf b (q_tb tp) &&
+                    forallb blank_ok (q_bd tp) && forallb blank_ok (q_ad tp)
+    | QText _ => false
+    end.
+
+  Lemma numval_reads_tok v tp A B o :
+    numval_wf v tp = true -> forallb blank_t A = true -> forallb blank_t B = true ->
+    range_or_numeric cfg (A ++ place o (print_value v tp) ++ B) = Some (inr (denote_value v)).
+  Proof.
+    intros W HA HB. destruct v as [n | a b | toks]; cbn [numval_wf print_value denote_value] in *; [| |discriminate].
+    - rewrite range_or_numeric_untriggered.
+      + rewrite (numeric_print_tok n (q_ta tp) A B o W HA HB). reflexivity.
+      + apply position_none. rewrite !forallb_app, (blank_t_notk KMinus A eq_refl HA), (blank_t_notk KMinus B eq_refl HB).
+        rewrite (place_notk KMinus); [reflexivity|]. apply numk_not; [reflexivity|]. apply print_num_numk. exact W.
+    - apply andb_true_iff in W as [W Had]. apply andb_true_iff in W as [W Hbd].
+      apply andb_true_iff in W as [W Wb]. apply andb_true_iff in W as [HR Wa].
+      unfold range_or_numeric, range_value. rewrite HR. cbn [negb].
+      rewrite place_app, place_app. cbn [place fst snd minus_p].
+      set (NA := place o (print_num a (q_ta tp))). set (BD := place _ (q_bd tp)).
+      set (m := {| kind := KMinus; tstr := [45]; tstart := _ |}).
+      rewrite place_app. set (AD := place _ (q_ad tp)). set (NB := place _ (print_num b (q_tb tp))).
+      replace (A ++ (NA ++ BD ++ m :: AD ++ NB) ++ B) with ((A ++ NA ++ BD) ++ m :: (AD ++ NB ++ B))
+        by (rewrite <- !app_assoc; cbn [app]; rewrite <- !app_assoc; reflexivity).
+      rewrite (position_split (fun k => tk_eqb k KMinus) (A ++ NA ++ BD) m (AD ++ NB ++ B)).
+      + rewrite firstn_length_app, skipn_length_app. unfold NA, NB, BD, AD.
+        rewrite (numeric_print_tok a (q_ta tp) A _ o Wa HA (place_blank _ _ Hbd)).
+        rewrite (numeric_print_tok b (q_tb tp) _ B _ Wb (place_blank _ _ Had) HB). reflexivity.
+      + rewrite !forallb_app, (blank_t_notk KMinus A eq_refl HA).
+        unfold BD. rewrite (blank_t_notk KMinus _ eq_refl (place_blank _ _ Hbd)).
+        unfold NA. rewrite (place_notk KMinus); [reflexivity|]. apply numk_not; [reflexivity|]. apply print_num_numk. exact Wa.
+      + reflexivity.
+  Qed.
+End NumTok.
+
+(* ---------------------------------------------------------------- ADVANCED_UNITS: `{1 g}` *)
+Lemma drop_block_prefix_le G X :
+  match X with x :: _ => is_ws_block (kind x) = false | [] => False end ->
+  exists n, (n <= length G)%nat /\ drop_ws_block (rev G ++ X) = rev (firstn n G) ++ X.
+Proof.
+  intro HX. induction G as [|g G0 IH] using rev_ind.
+  - exists O. split; [apply le_n|]. cbn [rev app firstn]. destruct X as [|x X']; [contradiction|]. cbn [drop_ws_block]. rewrite HX. reflexivity.
+  - rewrite rev_unit. cbn [app drop_ws_block]. destruct (is_ws_block (kind g)).
+    + destruct IH as (n & Hn & IH). exists n. rewrite app_length. split; [lia|].
+      rewrite IH. f_equal. f_equal. rewrite firstn_app.
+      replace (n - length G0)%nat with O by lia. cbn [firstn]. rewrite app_nil_r. reflexivity.
+    + exists (length (G0 ++ [g])). split; [apply le_n|]. rewrite firstn_all, rev_unit. reflexivity.
+Qed.
+
+Lemma drop_block_prefix G X :
+  match X with x :: _ => is_ws_block (kind x) = false | [] => False end ->
+  exists n, drop_ws_block (rev G ++ X) = rev (firstn n G) ++ X.
+Proof. intro H. destruct (drop_block_prefix_le G X H) as (n & _ & E). exists n. exact E. Qed.
+
+Section AdvSome.
+  Variable cfg : pcfg.
+
+  Lemma advanced_some L E B V G u0 U al dn ev v ut :
+    existsb (fun t => tk_eqb (kind t) KPercent) al = false ->
+    forallb blank_t L = true ->
+    (E = [] /\ B = [] /\ (match V with x :: _ => kind x <> KEq | [] => False end) \/ exists e, E = [e] /\ kind e = KEq) ->
+    forallb blank_t B = true ->
+    (match V with x :: _ => blank_t x = false | [] => False end) ->
+    (match rev V with x :: _ => is_ws_block (kind x) = false | [] => False end) ->
+    forallb (fun t => negb (tk_eqb (kind t) KWord)) (V ++ G) = true ->
+    forallb blank_t G = true -> (match rev G with g :: _ => kind g = KWs | [] => False end) ->
+    kind u0 = KWord ->
+    (forall n, range_or_numeric cfg (V ++ firstn n G) = Some (inr v)) ->
+    text_of cfg (tstart u0) (u0 :: U) = Done ut ->
+    exists q,
+      parse_advanced_quantity cfg (St al dn (L ++ E ++ B ++ V ++ G ++ u0 :: U) ev)
+      = Done (Some (q, None), St al (rev (L ++ E ++ B ++ V ++ G ++ u0 :: U) ++ dn) [] ev) /\
+      qv (q_val q) = v /\ q_unit q = Some ut /\
+      (match qlock (q_val q) with Some _ => true | None => false end) = negb (is_nil E).
+  Proof.
+    intros Hpct HL HE HB HV0 HVl Hnw HG HGl Hu0 Hval Htx.
+    destruct V as [|x V']; [contradiction|].
+    unfold parse_advanced_quantity. unfold bind at 1. unfold all_tokens. cbn [b_all St]. rewrite Hpct.
+    unfold bind at 1.
+    assert (Hlock : exists lock dn1,
+               scaling_lock (St al dn (L ++ E ++ B ++ (x :: V') ++ G ++ u0 :: U) ev)
+               = Done (lock, St al dn1 (B ++ (x :: V') ++ G ++ u0 :: U) ev) /\
+               dn1 = rev (L ++ E) ++ dn /\
+               (match lock with Some _ => true | None => false end) = negb (is_nil E)).
+    { destruct HE as [(-> & -> & Hxe) | (e & -> & He)]; cbn [app].
+      - rewrite (scaling_lock_none L x _ al dn ev HL HV0 Hxe). eexists _, _. split; [reflexivity|].
+        rewrite app_nil_r. split; reflexivity.
+      - rewrite (scaling_lock_eq L e _ al dn ev HL He). eexists _, _. split; [reflexivity|].
+        rewrite rev_app_distr. cbn [rev app]. split; reflexivity. }
+    destruct Hlock as (lock & dn1 & Hsl & Hdn1 & Hlk). rewrite Hsl.
+    unfold bind at 1. cbn [app].
+    rewrite (ws_comments_stop B x (V' ++ G ++ u0 :: U) al dn1 ev HB HV0).
+    unfold bind at 1.
+    replace (x :: V' ++ G ++ u0 :: U) with (((x :: V') ++ G) ++ u0 :: U) by (rewrite <- app_assoc; reflexivity).
+    rewrite (consume_while_stop (fun k => negb (tk_eqb k KWord)) ((x :: V') ++ G) u0 U al _ ev Hnw)
+      by (rewrite Hu0; reflexivity).
+    rewrite rev_app_distr. destruct (rev G) as [|g RG] eqn:ErG; [contradiction|]. cbn [app].
+    rewrite HGl. cbn [tk_eqb tkind_beq negb].
+    assert (Hd : exists n, drop_ws_block (g :: RG ++ rev (x :: V')) = rev (firstn n G) ++ rev (x :: V')).
+    { change (g :: RG ++ rev (x :: V')) with ((g :: RG) ++ rev (x :: V')). rewrite <- ErG.
+      apply drop_block_prefix. exact HVl. }
+    destruct Hd as (n & Hd). rewrite Hd. rewrite rev_app_distr, !rev_involutive.
+    cbn [app]. unfold bind at 1. unfold consume_rest.
+    rewrite (consume_while_all (fun _ => true) (u0 :: U) al _ ev) by (apply forallb_forall; reflexivity).
+    change (x :: V' ++ firstn n G) with ((x :: V') ++ firstn n G). rewrite (Hval n).
+    unfold bind at 1. unfold ret at 1. unfold bind at 1. unfold textM, lift. rewrite Htx. unfold ret.
+    match goal with |- exists q, Done (_, St _ ?a _ _) = Done (_, St _ ?b _ _) /\ _ =>
+      assert (Hst : b = a) end.
+    { subst dn1.
+      replace (L ++ E ++ B ++ x :: (V' ++ G) ++ u0 :: U) with ((L ++ E) ++ B ++ ((x :: V') ++ G) ++ u0 :: U)
+        by (rewrite <- !app_assoc; reflexivity).
+      rewrite !rev_app_distr, <- ?app_assoc, ErG. cbn [app]. rewrite <- ?app_assoc. reflexivity. }
+    rewrite Hst.
+    eexists. split; [reflexivity|]. split; [reflexivity|split; [reflexivity|exact Hlk]].
+  Qed.
+End AdvSome.
+
+(* ---------------------------------------------------------------- the quantity round trip *)
+Lemma negb_true b : negb b = true -> b = false.
+Proof. destruct b; [discriminate|reflexivity]. Qed.
+
+Lemma text_ok_parts cfg pct p :
+  text_ok cfg pct p = true ->
+  forallb shape_ok p = true /\ kind_in KPercent p = false /\ str_blank (toks_text p) = false /\
+  is_ws_comment (head_kind p) = false /\ head_kind p <> KEq /\
+  (exists k, first_nonnum p = Some k /\ (has cfg X_RANGE_VALUES = false \/ k <> KMinus)) /\
+  (has cfg X_ADVANCED_UNITS = false \/ pct = true \/ head_kind p = KWord \/ kind_in KWord p = false) /\
+  p <> [].
+Proof.
+  unfold text_ok. intro W.
+  apply andb_true_iff in W as [W Wadv]. apply andb_true_iff in W as [W Wfirst].
+  apply andb_true_iff in W as [W Weq]. apply andb_true_iff in W as [W Wnbl].
+  apply andb_true_iff in W as [W Wnb]. apply andb_true_iff in W as [Wsh Wpct].
+  apply negb_true in Wpct, Wnb, Wnbl, Weq.
+  repeat split; auto.
+  - intro E. rewrite E in Weq. discriminate.
+  - destruct (first_nonnum p) as [k|]; [|discriminate]. exists k. split; [reflexivity|].
+    destruct (has cfg X_RANGE_VALUES); [right|left; reflexivity]. cbn [negb orb] in Wfirst.
+    intros ->. discriminate.
+  - destruct (has cfg X_ADVANCED_UNITS); [|left; reflexivity]. right. cbn [negb orb] in Wadv.
+    destruct pct; [left; reflexivity|right]. cbn [orb] in Wadv. apply orb_true_iff in Wadv as [H|H].
+    + left. apply internal_tkind_dec_bl in H. exact H.
+    + right. apply negb_true in H. exact H.
+  - intros ->. discriminate.
+Qed.
+
+Definition lock_p (q : qspec) : list ptok := if qs_lock q then [eq_p] else [].
+Definition pre_p (q : qspec) (tp : qtape) : list ptok := if qs_lock q then q_after_lock tp else [].
+Definition has_unit (q : qspec) : bool := match qs_unit q with Some _ => true | None => false end.
+
+Lemma print_value_head cfg pct v tp :
+  value_wf cfg pct v tp = true -> exists t r, print_value v tp = t :: r /\ blank_p t = false /\ fst t <> KEq.
 Proof.
   destruct v as [n | a b | toks]; cbn [print_value value_wf]; intro W.
   - apply print_num_head.
   - destruct (print_num_head a (q_ta tp)) as (t & r & E & H1 & H2). rewrite E. cbn [app].
     eexists _, _. split; [reflexivity|]. split; assumption.
-  - unfold words_ok in W. apply andb_true_iff in W as [W _]. apply andb_true_iff in W as [_ W].
-    destruct toks as [|w r]; [discriminate|]. apply internal_tkind_dec_bl in W.
-    eexists _, _. split; [reflexivity|]. unfold blank_p. rewrite W. split; [reflexivity|discriminate].
+  - destruct (text_ok_parts _ _ _ W) as (_ & _ & _ & Hb & He & _ & _ & Hne).
+    destruct toks as [|w r]; [contradiction|]. eexists _, _. split; [reflexivity|]. split; assumption.
 Qed.
 
-Lemma print_value_nopct cfg v tp : value_wf cfg v tp = true -> forallb (notk KPercent) (print_value v tp) = true.
+Lemma print_value_nopct cfg pct v tp : value_wf cfg pct v tp = true -> forallb (notk KPercent) (print_value v tp) = true.
 Proof.
   destruct v as [n | a b | toks]; cbn [print_value value_wf]; intro W.
   - apply numk_not; [reflexivity|]. apply print_num_numk. exact W.
@@ -1076,24 +1389,32 @@ Proof.
     rewrite forallb_app, (numk_not KPercent _ eq_refl (print_num_numk _ _ Wa)).
     rewrite forallb_app, (blank_not KPercent _ eq_refl Hbd). cbn [forallb]. unfold notk at 1. cbn [fst minus_p tk_eqb tkind_beq negb andb].
     rewrite forallb_app, (blank_not KPercent _ eq_refl Had), (numk_not KPercent _ eq_refl (print_num_numk _ _ Wb)). reflexivity.
-  - unfold words_ok in W. apply andb_true_iff in W as [W _]. apply andb_true_iff in W as [W _].
-    apply andb_true_iff in W as [W _]. apply andb_true_iff in W as [_ W].
-    apply kind_in_forallb. destruct (kind_in KPercent toks); [discriminate|reflexivity].
+  - destruct (text_ok_parts _ _ _ W) as (_ & Hp & _). apply kind_in_forallb. exact Hp.
 Qed.
 
-Lemma print_value_word cfg v tp :
-  value_wf cfg v tp = true ->
-  (exists t r, print_value v tp = t :: r /\ fst t = KWord) \/ forallb (notk KWord) (print_value v tp) = true.
+Lemma numval_noword cfg v tp : numval_wf cfg v tp = true -> forallb (notk KWord) (print_value v tp) = true.
 Proof.
-  destruct v as [n | a b | toks]; cbn [print_value value_wf]; intro W.
-  - right. apply numk_not; [reflexivity|]. apply print_num_numk. exact W.
-  - right. apply andb_true_iff in W as [W Had]. apply andb_true_iff in W as [W Hbd].
+  destruct v as [n | a b | toks]; cbn [print_value numval_wf]; intro W; [| |discriminate].
+  - apply numk_not; [reflexivity|]. apply print_num_numk. exact W.
+  - apply andb_true_iff in W as [W Had]. apply andb_true_iff in W as [W Hbd].
     apply andb_true_iff in W as [W Wb]. apply andb_true_iff in W as [_ Wa].
     rewrite forallb_app, (numk_not KWord _ eq_refl (print_num_numk _ _ Wa)).
     rewrite forallb_app, (blank_not KWord _ eq_refl Hbd). cbn [forallb]. unfold notk at 1. cbn [fst minus_p tk_eqb tkind_beq negb andb].
     rewrite forallb_app, (blank_not KWord _ eq_refl Had), (numk_not KWord _ eq_refl (print_num_numk _ _ Wb)). reflexivity.
-  - left. unfold words_ok in W. apply andb_true_iff in W as [W _]. apply andb_true_iff in W as [_ W].
-    destruct toks as [|w r]; [discriminate|]. apply internal_tkind_dec_bl in W. eexists _, _. split; [reflexivity|exact W].
+Qed.
+
+(* without a `%` unit: the value starts with a word, or contains none (ADVANCED_UNITS on) *)
+Lemma print_value_word cfg v tp :
+  has cfg X_ADVANCED_UNITS = true -> value_wf cfg false v tp = true ->
+  (exists t r, print_value v tp = t :: r /\ fst t = KWord) \/ forallb (notk KWord) (print_value v tp) = true.
+Proof.
+  intros Ha W. destruct v as [n | a b | toks].
+  - right. apply (numval_noword cfg (QNum n)). exact W.
+  - right. apply (numval_noword cfg (QRange a b)). exact W.
+  - cbn [value_wf print_value] in *.
+    destruct (text_ok_parts _ _ _ W) as (_ & _ & _ & _ & _ & _ & [H|[H|[H|H]]] & Hne); try congruence.
+    + left. destruct toks as [|w r]; [contradiction|]. eexists _, _. split; [reflexivity|exact H].
+    + right. apply kind_in_forallb. exact H.
 Qed.
 
 Lemma forallb_negb_existsb {A} (f : A -> bool) l : forallb (fun t => negb (f t)) l = true -> existsb f l = false.
@@ -1102,26 +1423,66 @@ Proof.
   destruct (f x); [discriminate|]. exact (IH H2).
 Qed.
 
+(* the last token of a printed number is a digit string *)
+Lemma print_num_last n tp : exists pre l, print_num n tp = pre ++ [l] /\ is_ws_block (fst l) = false.
+Proof.
+  assert (Hd : forall ds, is_ws_block (digits_kind ds) = false).
+  { intro ds. unfold digits_kind. destruct ds as [|c [|d r]]; try reflexivity. destruct (c =? 48); reflexivity. }
+  destruct n as [ds | ip fp | x y | w x y]; cbn [print_num].
+  - exists [], (KInt, ds). split; reflexivity.
+  - destruct ip.
+    + exists [dot_p], (digits_kind fp, fp). split; [reflexivity|apply Hd].
+    + exists [(KInt, n :: ip); dot_p], (digits_kind fp, fp). split; [reflexivity|apply Hd].
+  - exists ((KInt, x) :: n_bs tp ++ slash_p :: n_as tp), (KInt, y). split; [|reflexivity].
+    cbn [app]. rewrite <- app_assoc. reflexivity.
+  - exists ((KInt, w) :: n_gap tp ++ (KInt, x) :: n_bs tp ++ slash_p :: n_as tp), (KInt, y). split; [|reflexivity].
+    cbn [app]. rewrite <- !app_assoc. cbn [app]. rewrite <- !app_assoc. reflexivity.
+Qed.
+
+Lemma numval_last cfg v tp :
+  numval_wf cfg v tp = true -> exists pre l, print_value v tp = pre ++ [l] /\ is_ws_block (fst l) = false.
+Proof.
+  destruct v as [n | a b | toks]; cbn [numval_wf print_value]; intro W; [| |discriminate].
+  - apply print_num_last.
+  - destruct (print_num_last b (q_tb tp)) as (pre & l & E & Hl). rewrite E.
+    exists (print_num a (q_ta tp) ++ q_bd tp ++ minus_p :: q_ad tp ++ pre), l. split; [|exact Hl].
+    rewrite <- !app_assoc. cbn [app]. rewrite <- !app_assoc. reflexivity.
+Qed.
+
+Definition vv_p (q : qspec) (tp : qtape) : list ptok :=
+  (if qs_lock q then q_after_lock tp else []) ++ print_value (qs_val q) tp ++ q_trail tp.
+Definition unit_p (q : qspec) (tp : qtape) : list ptok :=
+  match qs_unit q with Some u => pct_p :: q_after_pct tp ++ u ++ q_end tp | None => [] end.
+
+Lemma print_qty_split q tp :
+  (q_adv tp = None \/ qs_unit q = None) ->
+  print_qty q tp = q_lead tp ++ lock_p q ++ vv_p q tp ++ unit_p q tp.
+Proof.
+  intro H. unfold print_qty, print_unit, lock_p, vv_p, unit_p.
+  destruct (qs_unit q) as [u|]; [destruct H as [->|H]; [|discriminate]|];
+    destruct (qs_lock q); cbn [app]; rewrite <- ?app_assoc; cbn [app]; rewrite ?app_nil_r; reflexivity.
+Qed.
+
 Section Main.
   Variable cfg : pcfg.
 
-  Theorem parse_quantity_print q tp off s :
-    qty_wf cfg q tp = true ->
+  Lemma pq_regular q tp off s :
+    qty_wf cfg q tp = true -> (q_adv tp = None \/ qs_unit q = None) ->
     exists q' sep, parse_quantity cfg (place off (print_qty q tp)) s = Done ((q', sep), s) /\
                    qproj q' = denote_qty q.
   Proof.
-    intro W. unfold qty_wf in W.
-    apply andb_true_iff in W as [W Wunit].
+    intros W Hreg0. unfold qty_wf in W.
+    apply andb_true_iff in W as [W _]. apply andb_true_iff in W as [W Wunit].
     apply andb_true_iff in W as [W Wval]. apply andb_true_iff in W as [W Wend].
     apply andb_true_iff in W as [W Wap]. apply andb_true_iff in W as [W Wtrail].
     apply andb_true_iff in W as [W Wad]. apply andb_true_iff in W as [W Wbd].
     apply andb_true_iff in W as [W Wal]. apply andb_true_iff in W as [Wstrict Wlead].
     assert (Hstrict : p_strict_escape cfg = false) by (destruct (p_strict_escape cfg); [discriminate|reflexivity]).
-    assert (Wv : value_wf cfg (qs_val q) tp = true).
+    assert (Wv : value_wf cfg (has_unit q) (qs_val q) tp = true).
     { unfold value_wf. destruct (qs_val q); [exact Wval | | exact Wval]. rewrite Wval, Wbd, Wad. reflexivity. }
     set (pre := if qs_lock q then q_after_lock tp else []).
     assert (Hpre : forallb blank_ok pre = true) by (unfold pre; destruct (qs_lock q); [exact Wal|reflexivity]).
-    rewrite print_qty_split. rewrite !place_app.
+    rewrite (print_qty_split q tp Hreg0). rewrite !place_app.
     set (o1 := off + blen (unlex (q_lead tp))).
     set (o2 := o1 + blen (unlex (lock_p q))).
     set (o3 := o2 + blen (unlex (vv_p q tp))).
@@ -1131,7 +1492,7 @@ Section Main.
     assert (HL : forallb blank_t TL = true) by (apply place_blank; exact Wlead).
     assert (HE : TE = [] \/ exists e, TE = [e] /\ kind e = KEq).
     { unfold TE, lock_p. destruct (qs_lock q); [right|left; reflexivity]. eexists. split; reflexivity. }
-    destruct (print_value_head cfg _ _ Wv) as (t0 & r0 & Eh & Hb0 & Hk0).
+    destruct (print_value_head cfg _ _ _ Wv) as (t0 & r0 & Eh & Hb0 & Hk0).
     assert (HEV : TE = [] -> match TV with x :: _ => blank_t x = false /\ kind x <> KEq | [] => False end).
     { unfold TE, TV, lock_p, vv_p. destruct (qs_lock q); [discriminate|]. intros _. cbn [app]. rewrite Eh.
       cbn [app place kind]. split; assumption. }
@@ -1141,12 +1502,12 @@ Section Main.
     { unfold TV. rewrite (place_forallb (fun k => negb (tk_eqb k KPercent))). unfold vv_p. fold pre.
       change (forallb (notk KPercent) (pre ++ print_value (qs_val q) tp ++ q_trail tp) = true).
       rewrite !forallb_app, (blank_not KPercent _ eq_refl Hpre), (blank_not KPercent _ eq_refl Wtrail),
-        (print_value_nopct cfg _ _ Wv). reflexivity. }
+        (print_value_nopct cfg _ _ _ Wv). reflexivity. }
     assert (Hv : value_reads cfg TV (denote_value (qs_val q))).
-    { unfold TV, vv_p. fold pre. apply value_reads_print; assumption. }
+    { unfold TV, vv_p. fold pre. apply (value_reads_print cfg Hstrict (has_unit q)); assumption. }
     assert (Hu : unit_reads cfg TP (option_map (fun u => clean (toks_text u)) (qs_unit q))).
     { unfold TP, unit_p. destruct (qs_unit q) as [u|]; cbn [option_map].
-      - apply andb_true_iff in Wunit as [Wu1 Wu2]. apply unit_reads_print; auto.
+      - apply andb_true_iff in Wunit as [Wu1 Wu3]. apply andb_true_iff in Wu1 as [Wu1 Wu2]. apply unit_reads_print; auto.
         destruct (str_blank (toks_text u)); [discriminate|reflexivity].
       - left. split; reflexivity. }
     set (ts := TL ++ TE ++ TV ++ TP).
@@ -1177,7 +1538,8 @@ Section Main.
           split.
           - intro HTE. unfold pre. unfold TE, lock_p in HTE. destruct (qs_lock q); [discriminate|].
             split; [reflexivity|exact Hk0].
-          - cbn [kind]. destruct (print_value_word cfg _ _ Wv) as [(t1 & r1 & E1 & Hw1) | Hnw].
+          - cbn [kind]. assert (Wv0 : value_wf cfg false (qs_val q) tp = true) by (unfold has_unit in Wv; rewrite Eu in Wv; exact Wv).
+            destruct (print_value_word cfg _ _ Ha Wv0) as [(t1 & r1 & E1 & Hw1) | Hnw].
             + left. rewrite Eh in E1. inversion E1; subst. exact Hw1.
             + right. rewrite Eh in Hnw.
               change ({| kind := fst t0; tstr := snd t0; tstart := o2 + blen (unlex pre) |}
@@ -1205,8 +1567,117 @@ Section Main.
     - unfold qproj, denote_qty. rewrite Hqv, Hlk, Hun. f_equal. f_equal.
       unfold TE, lock_p. destruct (qs_lock q); reflexivity.
   Qed.
-End Main.
 
+
+
+  Lemma forallb_firstn {A} (f : A -> bool) n l : forallb f l = true -> forallb f (firstn n l) = true.
+  Proof.
+    revert n. induction l as [|x l IH]; intros [|n] H; cbn [firstn forallb] in *; auto.
+    apply andb_true_iff in H as [H1 H2]. rewrite H1, (IH n H2). reflexivity.
+  Qed.
+
+  Lemma place_last_kind p : forall o k, p <> [] -> last_kind p = k ->
+    match rev (place o p) with g :: _ => kind g = k | [] => False end.
+  Proof.
+    induction p as [|t p0 _] using rev_ind; intros o k Hne Hk; [contradiction|].
+    rewrite place_app. cbn [place]. rewrite rev_unit. cbn [kind].
+    unfold last_kind in Hk. rewrite rev_unit in Hk. exact Hk.
+  Qed.
+
+  Lemma pq_advanced q tp off s u gap :
+    qty_wf cfg q tp = true -> qs_unit q = Some u -> q_adv tp = Some gap ->
+    exists q' sep, parse_quantity cfg (place off (print_qty q tp)) s = Done ((q', sep), s) /\
+                   qproj q' = denote_qty q.
+  Proof.
+    intros W Eu Eg. unfold qty_wf in W. rewrite Eu, Eg in W.
+    apply andb_true_iff in W as [W Wadv]. apply andb_true_iff in W as [W Wunit].
+    apply andb_true_iff in W as [W Wval]. apply andb_true_iff in W as [W Wend].
+    apply andb_true_iff in W as [W Wap]. apply andb_true_iff in W as [W Wtrail].
+    apply andb_true_iff in W as [W Wad]. apply andb_true_iff in W as [W Wbd].
+    apply andb_true_iff in W as [W Wal]. apply andb_true_iff in W as [Wstrict Wlead].
+    assert (Hstrict : p_strict_escape cfg = false) by (destruct (p_strict_escape cfg); [discriminate|reflexivity]).
+    apply andb_true_iff in Wadv as [Wadv Wuw]. apply andb_true_iff in Wadv as [Wadv Wgl].
+    apply andb_true_iff in Wadv as [Wadv Wgb]. apply andb_true_iff in Wadv as [Ha Wnt].
+    apply andb_true_iff in Wunit as [Wu1 Wu3]. apply andb_true_iff in Wu1 as [Wu1 Wu2].
+    apply internal_tkind_dec_bl in Wgl, Wuw. apply negb_true in Wu3.
+    assert (Wn : numval_wf cfg (qs_val q) tp = true).
+    { unfold numval_wf. destruct (qs_val q); [exact Wval | | discriminate]. rewrite Wval, Wbd, Wad. reflexivity. }
+    destruct u as [|u0 ur]; [discriminate|]. cbn [head_kind] in Wuw.
+    assert (Hgne : gap <> []) by (intros ->; discriminate).
+    set (pre := pre_p q tp).
+    assert (Hpre : forallb blank_ok pre = true) by (unfold pre, pre_p; destruct (qs_lock q); [exact Wal|reflexivity]).
+    assert (Epr : print_qty q tp = q_lead tp ++ lock_p q ++ pre ++ print_value (qs_val q) tp ++ gap ++ (u0 :: ur) ++ q_end tp).
+    { unfold print_qty, print_unit, lock_p, pre, pre_p. rewrite Eu, Eg. destruct (qs_lock q); cbn [app]; reflexivity. }
+    rewrite Epr. rewrite !place_app.
+    set (TL := place off (q_lead tp)). set (TE := place _ (lock_p q)). set (TB := place _ pre).
+    set (oV := off + blen (unlex (q_lead tp)) + blen (unlex (lock_p q)) + blen (unlex pre)).
+    set (TV := place oV (print_value (qs_val q) tp)). set (TG := place _ gap).
+    set (oU := oV + blen (unlex (print_value (qs_val q) tp)) + blen (unlex gap)).
+    rewrite <- (place_app (u0 :: ur) oU (q_end tp)).
+    change (place oU ((u0 :: ur) ++ q_end tp)) with
+      ({| kind := fst u0; tstr := snd u0; tstart := oU |} :: place (oU + blen (snd u0)) (ur ++ q_end tp)).
+    set (U0 := {| kind := fst u0; tstr := snd u0; tstart := oU |}). set (TU := place (oU + blen (snd u0)) (ur ++ q_end tp)).
+    destruct (print_value_head cfg true _ _ (ltac:(destruct (qs_val q); [exact Wn|exact Wn|discriminate])
+                                             : value_wf cfg true (qs_val q) tp = true))
+      as (t0 & r0 & Eh & Hb0 & Hk0).
+    destruct (numval_last cfg _ _ Wn) as (vp & vl & Evl & Hvl).
+    destruct (text_reads cfg Hstrict ((u0 :: ur) ++ q_end tp) oU) as (ut & Etx & Hem & Htr).
+    { rewrite forallb_app, Wu1, (blank_ok_shape _ Wend). reflexivity. }
+    set (ts := TL ++ TE ++ TB ++ TV ++ TG ++ U0 :: TU).
+    assert (HL : forallb blank_t TL = true) by (apply place_blank; exact Wlead).
+    assert (HB : forallb blank_t TB = true) by (apply place_blank; exact Hpre).
+    assert (HG : forallb blank_t TG = true) by (apply place_blank; exact Wgb).
+    assert (Hnw : forallb (fun t => negb (tk_eqb (kind t) KWord)) (TV ++ TG) = true).
+    { rewrite forallb_app. unfold TV, TG. rewrite (place_notk KWord _ _ (numval_noword cfg _ _ Wn)).
+      rewrite (place_notk KWord _ _ (blank_not KWord _ eq_refl Wgb)). reflexivity. }
+    assert (Hpct : existsb (fun t => tk_eqb (kind t) KPercent) ts = false).
+    { apply forallb_negb_existsb. unfold ts. rewrite !forallb_app.
+      unfold TL, TE, TB, TV, TG.
+      rewrite (place_notk KPercent _ _ (blank_not KPercent _ eq_refl Wlead)).
+      rewrite (place_notk KPercent _ _ (blank_not KPercent _ eq_refl Hpre)).
+      rewrite (place_notk KPercent _ _ (blank_not KPercent _ eq_refl Wgb)).
+      rewrite (place_notk KPercent (print_value (qs_val q) tp)).
+      2:{ apply (print_value_nopct cfg true). destruct (qs_val q); [exact Wn|exact Wn|discriminate]. }
+      rewrite (place_notk KPercent (lock_p q)) by (unfold lock_p; destruct (qs_lock q); reflexivity).
+      change (U0 :: TU) with (place oU ((u0 :: ur) ++ q_end tp)).
+      rewrite (place_notk KPercent); [reflexivity|].
+      rewrite forallb_app, (kind_in_forallb _ _ Wu3), (blank_not KPercent _ eq_refl Wend). reflexivity. }
+    destruct (advanced_some cfg TL TE TB TV TG U0 TU ts [] (b_evs s) (denote_value (qs_val q)) ut Hpct HL)
+      as (q' & Hadv & Hqv & Hqu & Hlk); auto.
+    - unfold TE, TB, TV, pre, pre_p, lock_p. destruct (qs_lock q).
+      + right. eexists. split; reflexivity.
+      + left. split; [reflexivity|]. split; [reflexivity|]. rewrite Eh. cbn [place kind]. exact Hk0.
+    - unfold TV. rewrite Eh. cbn [place kind]. exact Hb0.
+    - unfold TV. rewrite Evl, place_app. cbn [place]. rewrite rev_unit. cbn [kind]. exact Hvl.
+    - unfold TG. apply place_last_kind; assumption.
+    - intro n. change (TV ++ firstn n TG) with ([] ++ TV ++ firstn n TG). unfold TV.
+      apply (numval_reads_tok cfg _ tp [] (firstn n TG) oV Wn eq_refl). apply forallb_firstn. exact HG.
+    - change (TL ++ TE ++ TB ++ TV ++ TG ++ U0 :: TU) with ts in Hadv.
+      exists q', None. split.
+      + unfold parse_quantity.
+        assert (Hts : ts <> []) by (unfold ts; destruct TL; [|discriminate]; destruct TE; [|discriminate];
+                                    destruct TB; [|discriminate]; destruct TV; [|discriminate]; destruct TG; discriminate).
+        destruct ts as [|t1 ts'] eqn:Ets; [contradiction|]. rewrite <- Ets in *.
+        unfold sub_block. rewrite Ets at 1. fold (St ts [] ts (b_evs s)). rewrite Ha.
+        unfold bind, with_recover. rewrite Hadv. unfold ret. destruct s; reflexivity.
+      + unfold qproj, denote_qty. rewrite Hqv, Hlk, Hqu, Eu. cbn [option_map]. f_equal; [f_equal|].
+        * unfold TE, lock_p. destruct (qs_lock q); reflexivity.
+        * f_equal. rewrite Htr, toks_text_app. unfold clean.
+          change (toks_text (u0 :: ur) ++ toks_text (q_end tp)) with ([] ++ toks_text (u0 :: ur) ++ toks_text (q_end tp)).
+          rewrite trim_pad; [reflexivity|reflexivity|apply blank_toks_text; exact Wend].
+  Qed.
+
+  Theorem parse_quantity_print q tp off s :
+    qty_wf cfg q tp = true ->
+    exists q' sep, parse_quantity cfg (place off (print_qty q tp)) s = Done ((q', sep), s) /\
+                   qproj q' = denote_qty q.
+  Proof.
+    intro W. destruct (qs_unit q) as [u|] eqn:Eu; [destruct (q_adv tp) as [gap|] eqn:Eg|].
+    - eapply pq_advanced; eassumption.
+    - apply pq_regular; [exact W|left; exact Eg].
+    - apply pq_regular; [exact W|right; exact Eu].
+  Qed.
+End Main.
 (* ---------------------------------------------------------------- the u32 bound *)
 Lemma numeric_frac_gen a A s1 S s2 B b :
   forallb blank_t a = true -> forallb blank_t b = true ->
@@ -1407,125 +1878,3 @@ Section Igr.
   Qed.
 End Igr.
 
-(* ---------------------------------------------------------------- printed ingredient, braces form *)
-Definition at_p : ptok := (KAt, [64]).
-Definition ob_p : ptok := (KOpenBrace, [123]).
-Definition cb_p : ptok := (KCloseBrace, [125]).
-
-Definition igr_name_ok (p : list ptok) : bool :=
-  forallb shape_ok p && negb (str_blank (toks_text p)) &&
-  forallb (fun t => negb (is_marker_or_open (fst t))) p && forallb (notk KOr) p &&
-  match p with t :: _ => negb (is_modifier_kind (fst t)) | [] => false end.
-
-(* the tokens between the braces: a printed quantity without `}` inside, or only white space *)
-Definition igr_inner_ok (cfg : pcfg) (q : option qspec) (tp : qtape) (inner : list ptok) : bool :=
-  match q with
-  | Some q => qty_wf cfg q tp && forallb (notk KCloseBrace) (print_qty q tp)
-  | None => forallb (fun t => is_ws_block (fst t)) inner
-  end.
-
-Definition print_igr_braces (name : list ptok) (q : option qspec) (tp : qtape) (inner : list ptok) : list ptok :=
-  at_p :: name ++ ob_p :: (match q with Some q => print_qty q tp | None => inner end) ++ [cb_p].
-
-Lemma qty_wf_value cfg q tp : qty_wf cfg q tp = true -> value_wf cfg (qs_val q) tp = true.
-Proof.
-  intro W. unfold qty_wf in W.
-  apply andb_true_iff in W as [W Wunit].
-  apply andb_true_iff in W as [W Wval]. apply andb_true_iff in W as [W Wend].
-  apply andb_true_iff in W as [W Wap]. apply andb_true_iff in W as [W Wtrail].
-  apply andb_true_iff in W as [W Wad]. apply andb_true_iff in W as [W Wbd].
-  unfold value_wf. destruct (qs_val q); [exact Wval | | exact Wval]. rewrite Wval, Wbd, Wad. reflexivity.
-Qed.
-
-Lemma existsb_nonblock_qty cfg q tp off :
-  qty_wf cfg q tp = true ->
-  existsb (fun t => negb (is_ws_block (kind t))) (place off (print_qty q tp)) = true.
-Proof.
-  intro W. rewrite (place_existsb (fun k => negb (is_ws_block k))).
-  pose proof (qty_wf_value cfg q tp W) as Wv.
-  destruct (print_value_head cfg _ _ Wv) as (t0 & r0 & Eh & Hb & _).
-  unfold print_qty. rewrite !existsb_app. rewrite Eh. cbn [existsb].
-  unfold blank_p in Hb. assert (H : is_ws_block (fst t0) = false) by (destruct (fst t0); try discriminate; reflexivity).
-  rewrite H. cbn [negb orb]. rewrite !orb_true_r. reflexivity.
-Qed.
-
-Section IgrPrint.
-  Variable cfg : pcfg.
-
-  Theorem ingredient_print name q tp inner k off ev :
-    p_strict_escape cfg = false ->
-    igr_name_ok name = true -> igr_inner_ok cfg q tp inner = true ->
-    match k with t :: _ => tk_eqb (fst t) KOpenParen = false | [] => True end ->
-    let ts := place off (print_igr_braces name q tp inner ++ k) in
-    exists i st,
-      ingredient_p cfg (St ts [] ts ev) = Done (Some (EvIngredient i), st) /\
-      b_rest st = place (off + blen (unlex (print_igr_braces name q tp inner))) k /\ b_evs st = ev /\
-      text_trimmed (i_name i) = clean (toks_text name) /\ i_alias i = None /\ i_mods i = 0 /\
-      i_inter i = None /\ i_note i = None /\
-      option_map qproj (i_qty i) = option_map denote_qty q.
-  Proof.
-    intros Hstrict Hname Hinner Hk ts.
-    unfold igr_name_ok in Hname.
-    apply andb_true_iff in Hname as [Hname Hmodk]. apply andb_true_iff in Hname as [Hname Hnor].
-    apply andb_true_iff in Hname as [Hname Hnmark]. apply andb_true_iff in Hname as [Hnshape Hnblank].
-    destruct name as [|n0 nm]; [discriminate|].
-    set (Qp := match q with Some q => print_qty q tp | None => inner end).
-    assert (Ets : exists oO oQ oC,
-               ts = {| kind := KAt; tstr := [64]; tstart := off |}
-                    :: place (off + blen [64]) (n0 :: nm)
-                    ++ {| kind := KOpenBrace; tstr := [123]; tstart := oO |}
-                    :: place oQ Qp
-                    ++ {| kind := KCloseBrace; tstr := [125]; tstart := oC |}
-                    :: place (off + blen (unlex (print_igr_braces (n0 :: nm) q tp inner))) k).
-    { unfold ts. rewrite place_app. unfold print_igr_braces at 1. fold Qp.
-      change (at_p :: (n0 :: nm) ++ ob_p :: Qp ++ [cb_p]) with ([at_p] ++ (n0 :: nm) ++ [ob_p] ++ Qp ++ [cb_p]).
-      rewrite (place_app [at_p]), (place_app (n0 :: nm)), (place_app [ob_p]), (place_app Qp).
-      change (blen (unlex [at_p])) with (blen [64]).
-      rewrite <- !app_assoc. cbn [place fst snd at_p ob_p cb_p app]. rewrite <- ?app_assoc. cbn [app].
-      eexists _, _, _. reflexivity. }
-    destruct Ets as (oO & oQ & oC & Ets).
-    set (A := {| kind := KAt; tstr := [64]; tstart := off |}) in *.
-    destruct (text_reads cfg Hstrict (n0 :: nm) (off + blen [64]) Hnshape) as (tname & Etx & Hem & Htr).
-    set (OB := {| kind := KOpenBrace; tstr := [123]; tstart := oO |}) in *.
-    set (CB := {| kind := KCloseBrace; tstr := [125]; tstart := oC |}) in *.
-    set (R := place (off + blen (unlex (print_igr_braces (n0 :: nm) q tp inner))) k) in *.
-    set (sQ := St ts (CB :: rev (place oQ Qp) ++ OB :: rev (place (off + blen [64]) (n0 :: nm)) ++ A :: []) R ev).
-    assert (Hq : exists qres,
-               (if existsb (fun t => negb (is_ws_block (kind t))) (place oQ Qp)
-                then exists q' sep, qres = Some q' /\ parse_quantity cfg (place oQ Qp) sQ = Done ((q', sep), sQ)
-                else qres = None) /\ option_map qproj qres = option_map denote_qty q).
-    { unfold Qp. destruct q as [q0|]; cbn [igr_inner_ok] in Hinner.
-      - apply andb_true_iff in Hinner as [Wq _]. rewrite (existsb_nonblock_qty cfg q0 tp _ Wq).
-        destruct (parse_quantity_print cfg q0 tp oQ sQ Wq) as (q' & sep & Hp & Hpj).
-        exists (Some q'). split; [exists q', sep; split; [reflexivity|exact Hp]|]. cbn [option_map]. rewrite Hpj. reflexivity.
-      - exists None. split; [|reflexivity]. rewrite (place_existsb (fun k => negb (is_ws_block k))).
-        assert (H : existsb (fun t => negb (is_ws_block (fst t))) inner = false).
-        { apply forallb_negb_existsb. eapply forallb_impl; [|exact Hinner]. intros x Hx. rewrite Hx. reflexivity. }
-        rewrite H. reflexivity. }
-    destruct Hq as (qres & Hq & Hqp).
-    assert (HQc : forallb (fun x => negb (tk_eqb (kind x) KCloseBrace)) (place oQ Qp) = true).
-    { rewrite (place_forallb (fun k => negb (tk_eqb k KCloseBrace))). unfold Qp.
-      destruct q as [q0|]; cbn [igr_inner_ok] in Hinner.
-      - apply andb_true_iff in Hinner as [_ H]. exact H.
-      - eapply forallb_impl; [|exact Hinner]. intros x Hx. cbv beta in Hx. destruct (fst x); try discriminate Hx; reflexivity. }
-    destruct (ingredient_braces cfg A {| kind := fst n0; tstr := snd n0; tstart := off + blen [64] |}
-                (place (off + blen [64] + blen (snd n0)) nm) OB (place oQ Qp) CB R ts [] ev tname qres)
-      as (i & Hi & Hin & Hia & Him & Hii & Hint & Hiq); try reflexivity.
-    - change (forallb (fun x => negb (is_marker_or_open (kind x))) (place (off + blen [64]) (n0 :: nm)) = true).
-      rewrite (place_forallb (fun k => negb (is_marker_or_open k))). exact Hnmark.
-    - cbn [kind]. destruct (is_modifier_kind (fst n0)); [discriminate|reflexivity].
-    - change (position (fun k => tk_eqb k KOr) (place (off + blen [64]) (n0 :: nm)) = None).
-      apply place_position_none. exact Hnor.
-    - exact HQc.
-    - unfold R. destruct k as [|t k']; [reflexivity|]. cbn [place kind]. exact Hk.
-    - exact Etx.
-    - rewrite Hem. destruct (str_blank (toks_text (n0 :: nm))); [discriminate|reflexivity].
-    - exact Hq.
-    - exists i. eexists. split.
-      + change (place (off + blen [64]) (n0 :: nm))
-          with ({| kind := fst n0; tstr := snd n0; tstart := off + blen [64] |}
-                  :: place (off + blen [64] + blen (snd n0)) nm) in Ets.
-        rewrite <- Ets in Hi. exact Hi.
-      + cbn [b_rest b_evs St]. repeat split; auto. rewrite Hin. exact Htr. rewrite Hiq. exact Hqp.
-  Qed.
-End IgrPrint.
